@@ -109,6 +109,7 @@ func (ex *Exec) initStubs() {
 	upred("unicode.IsDigit", unicode.IsDigit)
 	t["strconv.ParseInt"] = stubParseInt
 	ex.initIOStubs()
+	ex.initCLIStubs()
 }
 
 func (ex *Exec) strPred2(s *StrV, what, b string, f func(a, b string) bool) *smt.Term {
